@@ -57,9 +57,11 @@ def run_binary(scratch, args, cwd, timeout=120):
     return p.returncode, (p.stdout + p.stderr).decode("utf-8", "replace")[-400:]
 
 
-def make_csv(scratch, d, name, hdr, recs, raw_tail=None):
+def make_csv(scratch, d, name, hdr, recs, raw_tail=None, style=None):
     recfile = os.path.join(d, name + ".rec")
     with open(recfile, "w") as fh:
+        if style:
+            fh.write("STYLE %s\n" % style)
         fh.write(rec_line(hdr) + "\n")
         for r in recs:
             fh.write(rec_line(r) + "\n")
@@ -101,8 +103,19 @@ def run(rep, scratch, tier, seed, replay=None):
         if i == 2:
             hdr = [b"ID", b"a", b"ab", b"abc"]
             recs = [[b"r0", b"bc", b"z", b""], [b"r1", b"q", b"c", b"x"], [b"r2", b"b", b"", b"y"], [b"r3", b"bc", b"c", b""], [b"r4", b"", b"c", b"q"]]
+        if i in (3, 4, 5):
+            # the number of distinct (column, value) pairs is exactly 1000 / 2000 / 1001: the
+            # in-memory writer commits every 1000 bitmaps
+            n = {3: 999, 4: 1999, 5: 1000}[i]
+            hdr = [b"ID", b"a"]
+            recs = [[b"r%05d" % j, b"x"] for j in range(n)]
+        if i == 6:
+            hdr = [b"ID", b" lead", b"trail ", b"\tTab", b"in ner"]
+            recs = [[b"r0", b" padded", b"padded ", b"\tx", b" "], [b"r1", b"  ", b"\t", b" \t y", b"a b"], [b"r2", b"padded", b" padded ", b"x", b""]]
         stats["records"] += len(recs)
-        csvp, hdr_lines = make_csv(scratch, d, "c%d" % i, hdr, recs)
+        # every second file is hand-written style: quotes only where needed, so leading and
+        # trailing blanks sit in unquoted fields
+        csvp, hdr_lines = make_csv(scratch, d, "c%d" % i, hdr, recs, style="minimal" if i % 2 == 0 else None)
         for big in (False, True):
             cid = "c%d%s" % (i, "b" if big else "m")
             out = os.path.join(d, cid + ".updog")
@@ -212,7 +225,7 @@ def run(rep, scratch, tier, seed, replay=None):
                       {"header": [core.show_bytes(h) for h in hdr], "records": [[core.show_bytes(f) for f in r] for r in recs[:30]], "case": cid})
     rep.coverage.update({
         "evaluations": nq + nrunes, "distinct_nontrivial": stats["created"],
-        "rule": "CSV files written by encoding/csv from generated records (0..60 and one of 1500 records; fields with quotes, commas, newlines, NUL, non-ASCII, invalid UTF-8, empty; headers with upper case, spaces, digits, U+212A, U+0130, CJK) x {normal, -b}: exit status, `updog schema`, second run on the existing output (must fail, SHA-256 unchanged), created index vs the model's index of the ingested records (schema; per-record probe on all its values grouped by the id column; NOT-probe grouped by (column,id)); both modes equal; malformed CSVs (ragged, bare quote, unterminated quote, empty file) x existing/absent output; header normalisation of %d code points vs normalize_rune. Non-trivial = indexes created and compared." % nrunes,
+        "rule": "CSV files written by encoding/csv, and hand-written style files that quote only where the format needs it (unquoted leading/trailing blanks and tabs), from generated records (0..60, one of 1500 records, and files with exactly 1000 / 1001 / 2000 distinct (column,value) pairs; fields with quotes, commas, newlines, NUL, non-ASCII, invalid UTF-8, empty; headers with upper case, spaces, digits, U+212A, U+0130, CJK) x {normal, -b}: exit status, `updog schema`, second run on the existing output (must fail, SHA-256 unchanged), created index vs the model's index of the ingested records (schema; per-record probe on all its values grouped by the id column; NOT-probe grouped by (column,id)); both modes equal; malformed CSVs (ragged, bare quote, unterminated quote, empty file) x existing/absent output; header normalisation of %d code points vs normalize_rune. Non-trivial = indexes created and compared." % nrunes,
         "distribution": stats, "failures": len(bad), "exhaustive": tier == "thorough",
         "samples": [[core.show_bytes(h) for h in cases[0][2]]] if cases else [],
     })
